@@ -89,6 +89,11 @@ fn plan_from_json(v: &Value) -> FaultPlan {
         };
         plan.class = Some((class, c[1].as_u64().unwrap() as u32, c[2].as_u64().unwrap() as u32, f(c[3].as_str().unwrap())));
     }
+    if let Some(enter) = v["enter"].as_array() {
+        for e in enter {
+            plan.enter.push((e[0].as_u64().unwrap() as u32, e[1].as_i64().unwrap() as i32));
+        }
+    }
     plan
 }
 
@@ -101,8 +106,9 @@ pub fn child(args: &Args) -> ! {
     let epilogue_only = args.get("epilogue").is_some();
     let path = format!("{dir}/{tag}.feox");
     let (data_blocks, phase_a, phase_b) = workload(wid);
+    let uring = args.get("io") == Some("uring");
     let mut cfg = Cfg::disk(16 + data_blocks);
-    cfg.sync_io = true;
+    cfg.sync_io = !uring;
     cfg.cpus = 2;
     cfg.cache = wid % 2 == 0;
     feoxdb::verif::set_thread_now_ns(NOW);
@@ -166,7 +172,13 @@ pub fn child(args: &Args) -> ! {
     if let Some(f) = plan.from.as_mut() {
         f.0 += calls_before;
     }
+    plan.uring = uring;
+    let enter_before = mon.enter_stats().0;
+    for e in plan.enter.iter_mut() {
+        e.0 += enter_before;
+    }
     mon.set_plan(plan);
+    out["uses_uring"] = json!(store.verif_uses_uring());
     for s in &phase_b {
         cx.step(s, true);
         cx.check_reads();
@@ -216,6 +228,14 @@ pub fn child(args: &Args) -> ! {
     }
     last_ack_snapshot = last_ack_snapshot.min(snapshots.len() - 1);
     out["calls_phase_b"] = json!(calls_b);
+    let (enter_calls, enter_faults) = mon.enter_stats();
+    out["enter_calls_phase_b"] = json!(enter_calls - enter_before);
+    out["enter_faults"] = json!(enter_faults.iter().map(|(n, e)| json!([n - enter_before, e])).collect::<Vec<_>>());
+    let (q, c, ce, leaked, uv) = hub().uring_stats();
+    out["uring_buffers"] = json!({"queued": q, "completed": c, "completed_with_error": ce, "left_in_flight": leaked});
+    for v in uv {
+        problems.push(("fault:inflight-buffer-dropped".into(), v));
+    }
     out["call_classes"] = json!(classes);
     out["consumed"] = json!(consumed.iter().map(|(i, c, f)| json!([i - calls_before, c.name(), format!("{f:?}")])).collect::<Vec<_>>());
     out["flushes"] = json!(flushes);
@@ -335,9 +355,15 @@ fn finish(dir: &str, tag: &str, out: Value) -> ! {
     std::process::exit(0);
 }
 
+/// children use the io_uring write path (SQEs failable, io_uring_enter failable) instead of forced synchronous I/O
+static IO_URING: std::sync::atomic::AtomicBool = std::sync::atomic::AtomicBool::new(false);
+
 fn run_child(exe: &str, dir: &str, tag: &str, wid: u64, plan: &Value, epilogue: bool) -> Result<Value, String> {
     let mut cmd = std::process::Command::new(exe);
     cmd.arg("fault-child").args(["--workload", &wid.to_string(), "--dir", dir, "--tag", tag, "--plan", &plan.to_string()]);
+    if IO_URING.load(std::sync::atomic::Ordering::Relaxed) {
+        cmd.args(["--io", "uring"]);
+    }
     if epilogue {
         cmd.args(["--epilogue", "1"]);
     }
@@ -416,6 +442,11 @@ pub fn run(args: &Args) -> Report {
         "deterministic single-worker synchronous-I/O workloads (first write on a fresh device, updates of durable keys across size classes, delete/recreate with extent reuse, nearly-full device, repeated rewrites of one key); the I/O calls (every pwrite and fsync) of the faulted phase are numbered and fault plans are enumerated: every single call x {fail before, fail after the bytes/fsync reached the device}, seeded pairs, persistent failure from each call on, per-class bursts of 1-3 consecutive failures. Each plan runs in its own process; online: every get equals the model, writes are never refused; after every flush attempt the durable-prefix image and the file as it stands are recovered by the real store in a fresh process and each key must lie in [last acknowledged state, latest state] (exactly the model after an Ok flush); after faults stop flush must succeed (or, after an indeterminate failure, after reopening) and make everything durable. distinct non-trivial = plans whose fault was actually consumed, by (workload, call class, mode, flush outcome pattern)",
     );
     let thorough = args.thorough();
+    let uring = args.get("io") == Some("uring");
+    IO_URING.store(uring, std::sync::atomic::Ordering::Relaxed);
+    if uring {
+        report.rule = format!("[io_uring write path: record batches go through SQEs (an injected failure makes the kernel complete the SQE with EBADF) and io_uring_enter can be made to fail with EINTR (retried) or EIO (indeterminate outcome); the monitor also follows every buffer handed to the kernel: the I/O layer must not drop its reference before the completion is reaped] {}", report.rule);
+    }
     let shard = args.num("shard", 0);
     let shards = args.num("shards", 1).max(1);
     let exe = std::env::current_exe().unwrap().to_string_lossy().to_string();
@@ -433,6 +464,20 @@ pub fn run(args: &Args) -> Report {
             }
         };
         let n = base["calls_phase_b"].as_u64().unwrap_or(0);
+        if uring {
+            if base["uses_uring"].as_bool() != Some(true) {
+                report.inconclusive.push(format!("workload {wid}: the store did not take the io_uring path in this environment"));
+                continue;
+            }
+            let e = base["enter_calls_phase_b"].as_u64().unwrap_or(0);
+            report.count("baseline_uring_enter_calls", e);
+            for i in 0..e {
+                plans.push((wid, json!({"enter": [[i, 4]]})));
+                plans.push((wid, json!({"enter": [[i, 4], [i + 1, 4], [i + 2, 4]]})));
+                plans.push((wid, json!({"enter": [[i, 5]]})));
+                plans.push((wid, json!({"at": [[(i * 7) % n.max(1), "before"]], "enter": [[i, 4]]})));
+            }
+        }
         report.count("baseline_io_calls", n);
         if !base["problems"].as_array().map(|a| a.is_empty()).unwrap_or(true) {
             report.violation("fault:baseline", format!("fault-free run reports problems: {}", base["problems"]), json!({"engine": "fault", "workload": wid}));
@@ -494,6 +539,20 @@ pub fn run(args: &Args) -> Report {
                 };
                 let consumed = res["consumed"].as_array().cloned().unwrap_or_default();
                 let flushes: Vec<String> = res["flushes"].as_array().map(|a| a.iter().map(|x| x.as_str().unwrap_or("").to_string()).collect()).unwrap_or_default();
+                let enter_faults = res["enter_faults"].as_array().cloned().unwrap_or_default();
+                if !enter_faults.is_empty() {
+                    local.count("plans_with_enter_fault_delivered", 1);
+                    let kinds: String = enter_faults.iter().map(|e| format!("e{}", e[1])).collect::<Vec<_>>().join("+");
+                    local.nontrivial.insert(fnv_mix(fnv_mix(wid, fnv(kinds.as_bytes())), fnv(flushes.join(",").as_bytes())));
+                    for e in &enter_faults {
+                        local.count(&format!("enter_fault_errno_{}", e[1]), 1);
+                    }
+                }
+                if let Some(u) = res["uring_buffers"].as_object() {
+                    for (k, v) in u {
+                        local.count(&format!("uring_buffers_{k}"), v.as_u64().unwrap_or(0));
+                    }
+                }
                 if !consumed.is_empty() {
                     local.count("plans_with_fault_consumed", 1);
                     let classes: String = consumed.iter().map(|c| format!("{}{}", c[1].as_str().unwrap_or(""), c[2].as_str().unwrap_or(""))).collect::<Vec<_>>().join("+");
